@@ -669,7 +669,7 @@ C14_Consecutive_Prop == [][C14_Consecutive_Step]_vars
 \* ================================================================== C18
 \* creation fees are charged exactly
 FeeExact(fee, payer) ==
-  IF fee.set
+  IF fee.set /\ fee.amt > 0
   THEN /\ ev'.m.fee.set /\ ev'.m.fee.denom = fee.denom /\ ev'.m.fee.amt >= fee.amt
        /\ CoinBal(st, payer, fee.denom) >= fee.amt
        /\ CoinBal(st', payer, fee.denom) = CoinBal(st, payer, fee.denom) - fee.amt
@@ -685,7 +685,7 @@ C18_FeeExact_Step ==
 \* documented preconditions of user operations ("must succeed" direction);
 \* applied to events drawn from the specification's own message domain
 FeeOfferOK(s, fee, offered, payer) ==
-  fee.set => /\ offered.set /\ offered.denom = fee.denom /\ offered.amt >= fee.amt
+  (fee.set /\ fee.amt > 0) => /\ offered.set /\ offered.denom = fee.denom /\ offered.amt >= fee.amt
              /\ CoinBal(s, payer, fee.denom) >= fee.amt
 
 PreCreateClass(s, m) ==
